@@ -214,8 +214,9 @@ def swaps(ctx):
     ok = False
     if len(rets) == 1 and isinstance(rets[0].value, ast.Tuple):
         p = poly(ctx, m, rets[0].value.elts[0])
-        ok = p == {("len(coords)", "next_latency"): 1,
-                   ("len(merged)", "next_latency"): 1}
+        mv = text(rets[0].value.elts[1]) if len(rets[0].value.elts) > 1 else "?"
+        ok = p == {tuple(sorted(("len(coords)", "next_latency"))): 1,
+                   tuple(sorted(("len(%s)" % mv, "next_latency"))): 1}
     if ok:
         ctx.ok("C19.R2", m, rets[0], "finite latency: next_latency * "
                "(lists + elements)")
